@@ -11,6 +11,8 @@ FC_ASSUME = [
     "tree edges are those documented in proto_array.go: a block node hangs (fork-choice parent) from the first known node of its parent root, an empty-slot node from the node one slot before it",
     "no block has the all-zero root at slot 0 (Go's zero NodeRef is the vote store's 'no vote' sentinel); an empty-slot insertion under an unknown root or below the first slot of its root is outside the domain (the API has no result to reject it): the specification answers `any` from there on",
     "Search without options is unconstrained (its doc comment is truncated in the source)",
+    "a root names one block: a root that was pruned is not inserted again as a new block while a latest vote still names it (the specification answers `any` from there on; the generator avoids it)",
+    "OnPrune (rewritten in /repo commit 38d1471) is atomic when the sink fails: nothing is dropped, the error is returned, a repeated call reports the same nodes again (the sink must tolerate repeats); a block filling the slot of an empty-slot checkpoint node is dropped as conflicting with the checkpoint",
 ]
 
 def _nontrivial(kinds):
@@ -27,7 +29,7 @@ PROPS = {"C09": dict(
         "Zrnt.Proofs.C09.weights_propagate",
         "Zrnt.Proofs.C09.score_changes_exact",
         "Zrnt.Proofs.C09.inv_best",
-        "Zrnt.Proofs.C09.head_eq_ghost_partial",
+        "Zrnt.Proofs.C09.head_eq_ghost",
         "Zrnt.Proofs.C09.Old.head_eq_ghost_false",
     ],
     modes=[dict(name="fc09", stateful=True, max_shrinks=2,
@@ -38,7 +40,7 @@ PROPS = {"C09": dict(
     rule="operation sequences (reset-separated) run on the real Go fork choice and on the Lean model+specification; counted: head/findhead/att/block/slot/justify/pin lines that the Go side executed; distinct = distinct (position, line)",
     manifest=dict(
         level_text="Lean theorems about a code-shaped model of the proto-array fork choice (invariants over all operation sequences, refinement lemmas towards the GHOST specification) plus a differential run of generated operation sequences on the real Go code, the model and the independent GHOST oracle",
-        level_note="trusted: Lean kernel, hand model tied by correspondence (every API result compared on generated histories), GHOST oracle in Spec.lean; head_eq_ghost is proved for all admissible histories (no finalization change), false after a prune (OnPrune family, known finding, witness proved)",
+        level_note="trusted: Lean kernel, hand model tied by correspondence (every API result compared on generated histories), GHOST oracle in Spec.lean; head_eq_ghost is proved for all admissible histories including finalizations and pruning (the specification prunes to the finalized subtree); Old.head_eq_ghost_false keeps the witness against the model of the code before the OnPrune rewrite; histories with malformed insertions are covered by the structure invariant only while the finalized checkpoint stays",
         technique="Lean 4 proof over hand model + Go/Lean/oracle differential correspondence",
         design_ref="DESIGN.md 5/C09", engine="lean"),
 )}
